@@ -99,12 +99,17 @@ def _make_builtin_spy(base, name, mapping=False):
         LOG.append((self._tag, 'eq', None))
         return base.__eq__(self, o)
 
+    def __ne__(self, o):
+        # (kept apart from 'eq': nothing in a type-check has a reason to ask whether its subject differs from something)
+        LOG.append((self._tag, 'ne-comparison', None))
+        return base.__ne__(self, o)
+
     def __bool__(self):
         LOG.append((self._tag, 'bool', None))
         return base.__len__(self) > 0
 
     ns.update(__len__=__len__, __iter__=__iter__, __contains__=__contains__, __repr__=__repr__,
-              __eq__=__eq__, __bool__=__bool__)
+              __eq__=__eq__, __ne__=__ne__, __bool__=__bool__)
     if base.__hash__ is not None:
         def __hash__(self):
             LOG.append((self._tag, 'hash', None))
